@@ -51,6 +51,10 @@ import (
 	"github.com/nais/wonderwall/pkg/router"
 )
 
+// scVariant holds the three model-variant tokens (lib/code_flags.json: enc_key_strict wait_nonneg ingress_pattern_strict)
+// that prefix every model input line; they select the model variant and do not influence what is run on the real code.
+var scVariant = "0 0 0"
+
 func init() {
 	register("startcfg", "C20: start-up configuration: key decoder, Config.Validate/ParseIngresses/router.New in process, and the built binary across the configuration space", runStartcfg)
 }
@@ -128,10 +132,12 @@ type scDisc struct {
 	Jwks       string   `json:"jwks"` // ok | 404 | junk | nouri
 }
 
-func (d scDisc) jsonOK() bool      { return d.Kind == "ok" || d.Kind == "status404" }
-func (d scDisc) endSessOK() bool   { return d.EndSession != "http://[::1" }
-func (d scDisc) jwksOK() bool      { return d.Jwks == "ok" }
-func (d scDisc) model() [3]string  { return [3]string{scB01(d.jsonOK()), scB01(d.endSessOK()), scB01(d.jwksOK())} }
+func (d scDisc) jsonOK() bool    { return d.Kind == "ok" || d.Kind == "status404" }
+func (d scDisc) endSessOK() bool { return d.EndSession != "http://[::1" }
+func (d scDisc) jwksOK() bool    { return d.Jwks == "ok" }
+func (d scDisc) model() [3]string {
+	return [3]string{scB01(d.jsonOK()), scB01(d.endSessOK()), scB01(d.jwksOK())}
+}
 func scB01(b bool) string {
 	if b {
 		return "1"
@@ -198,10 +204,10 @@ func (p *scProvider) ServeHTTP(w http.ResponseWriter, r *http.Request) {
 			return
 		}
 		m := map[string]any{
-			"issuer":                 p.base,
-			"authorization_endpoint": p.base + "/authorize",
-			"token_endpoint":         p.base + "/token",
-			"end_session_endpoint":   d.EndSession,
+			"issuer":                                p.base,
+			"authorization_endpoint":                p.base + "/authorize",
+			"token_endpoint":                        p.base + "/token",
+			"end_session_endpoint":                  d.EndSession,
 			"id_token_signing_alg_values_supported": d.Algs,
 			"acr_values_supported":                  d.Acrs,
 			"ui_locales_supported":                  d.Locales,
@@ -255,6 +261,7 @@ var scClassTable = []struct {
 	{"\"upstream-port\" must be set when", 22},
 	{"must be in valid range", 23},
 	{"must be greater than", 24},
+	{"\"shutdown-wait-before-period\" must not be negative", 25},
 	{"decode encryption key", 30},
 	{"bad key length", 31},
 	{"missing required config: at least one of", 40},
@@ -274,6 +281,7 @@ var scClassTable = []struct {
 	{"ingress cannot be empty", 53},
 	{"must have non-empty host", 55},
 	{"invalid URL scheme, must be one of", 56},
+	{"path must not contain any of", 57},
 	{"parsing ingress '", 54}, // any other ParseIngress failure is the url.ParseRequestURI error
 }
 
@@ -543,7 +551,7 @@ func scHexList(l []string) []string {
 
 // model input line
 func (c *scCase) line(d scDisc, oj, ored, ofetch []string) string {
-	toks := []string{"cfrun"}
+	toks := []string{"cfrun", scVariant, "|"}
 	for i := 0; i < scNumS; i++ {
 		toks = append(toks, scTok(c.S[i][0]), scTok(c.S[i][1]))
 	}
@@ -645,7 +653,10 @@ func newScGen(rng *mrand.Rand, prov *scProvider, redisAddr string) *scGen {
 	mk(func(d *scDisc) { d.Jwks = "404" })
 	mk(func(d *scDisc) { d.Jwks = "junk" })
 	mk(func(d *scDisc) { d.Jwks = "nouri" })
-	mk(func(d *scDisc) { d.Acrs = []string{"Level4 Level3", "idporten-loa-high"}; d.Locales = []string{"nb en"} })
+	mk(func(d *scDisc) {
+		d.Acrs = []string{"Level4 Level3", "idporten-loa-high"}
+		d.Locales = []string{"nb en"}
+	})
 
 	wk := prov.url(g.discOK)
 	g.wkPool = []string{wk, "foo", "http://127.0.0.1:1/unreachable"}
@@ -658,7 +669,9 @@ func newScGen(rng *mrand.Rand, prov *scProvider, redisAddr string) *scGen {
 		"http://app.example.com", "https://localhost", "https://a.example.com,https://b.example.com/path/", "ftp://x.example.com",
 		"https://", "/relative", "https://a.example.com,", "app.example.com", "https://a.example.com/x*y", "https://a.example.com/{id}",
 		"https://a.example.com/x{y", "http://127.0.0.1:8080", "", "http://localhost,https://app.example.com", "http://localhost.example.com",
-		"http://localhost/a,http://localhost/a/b", "https://app.example.com/%2A", "HTTPS://APP.EXAMPLE.COM"}
+		"http://localhost/a,http://localhost/a/b", "https://app.example.com/%2A", "HTTPS://APP.EXAMPLE.COM",
+		"https://app.example.com,http://localhost", "http://localhost:8080,http://app.example.com,http://localhost:3000",
+		"http://localhost,https://localhost", "https://a.example.com/x}y", "https://a.example.com/app/{id}/", "https://a.example.com/*"}
 	g.pools[scSameSiteS] = []string{"Lax", "None", "Strict", "lax", "", "Default"}
 	g.pools[scClientIDS] = []string{"client-id", "", "another"}
 	g.pools[scJwkS] = g.jwkPool
@@ -902,6 +915,20 @@ func (g *scGen) cases(tier string) []*scCase {
 			}
 		}
 	}
+	// (c2) cookie.secure=false with every ingress pool value (lists mixing localhost and public hosts included), flag and variable
+	for mode := 0; mode < 3; mode++ {
+		for _, v := range g.pools[scIngressS] {
+			if tier != "thorough" && mode != 0 && g.rng.Intn(2) == 0 {
+				continue
+			}
+			c := g.validBase(mode, "openid")
+			c.S[scIngressS] = [2]*string{nil, nil}
+			c.S[scIngressS][g.rng.Intn(2)] = sp(v)
+			c.T[scSecureT] = [2]*scTyped{nil, nil}
+			c.T[scSecureT][g.rng.Intn(2)] = &scTyped{"false", false, 0}
+			add(c, fmt.Sprintf("insecure mode=%d ingress=%q", mode, v))
+		}
+	}
 	// (d) provider specific variables: every subset of channels for client id / jwk / well-known
 	for _, p := range []string{"azure", "idporten", "openid", "foo"} {
 		for rep := 0; rep < 12; rep++ {
@@ -971,7 +998,7 @@ func runStartcfgKey(out string, rng *mrand.Rand, tier string) (int, error) {
 		if err == nil && len(key) != 32 {
 			code = 94 // the returned key is not 256 bits
 		}
-		fmt.Fprintf(win, "cfkey %s\n", hx(k))
+		fmt.Fprintf(win, "cfkey %s %s\n", scVariant, hx(k))
 		fmt.Fprintf(wimpl, "%d\n", code)
 		n++
 	}
@@ -1101,7 +1128,7 @@ func runStartcfgVal(out string, rng *mrand.Rand, tier string) (int, error) {
 		} else {
 			c3 = scRouterCode(cfg, ing)
 		}
-		toks := []string{"cfval"}
+		toks := []string{"cfval", scVariant, "|"}
 		for _, s := range v.s {
 			toks = append(toks, hx(s))
 		}
@@ -1230,7 +1257,11 @@ func runStartcfg(args []string) error {
 	seed := fs.Int64("seed", 1, "PRNG seed")
 	tier := fs.String("tier", "quick", "quick|thorough")
 	par := fs.Int("par", 16, "processes in parallel")
+	keyStrict := fs.Bool("enc-key-strict", false, "model flag: only an empty key setting generates a key")
+	waitNonneg := fs.Bool("wait-nonneg", false, "model flag: a negative shutdown-wait-before-period is refused")
+	ingStrict := fs.Bool("ingress-pattern-strict", false, "model flag: ingress paths containing * { } are refused")
 	fs.Parse(args)
+	scVariant = scB01(*keyStrict) + " " + scB01(*waitNonneg) + " " + scB01(*ingStrict)
 	rng := mrand.New(mrand.NewSource(*seed))
 	if err := scCheckTypedTables(); err != nil {
 		return err
